@@ -82,7 +82,9 @@ class Model:
     def __init__(self, prog, until=None, interacting=None, hand_times=()):
         if interacting is not None:
             self.INTERACTING = set(interacting)
-        self.recent = []      # (time, clock, interacted) of recent steps
+        self.recent = []      # (time, clock, interacted, no) of recent steps
+        self.step_no = 0
+        self.current_step = None   # the step that is being performed
         self.hand_times = list(hand_times)
         self.hand_calls = 0
         self.prog = prog
@@ -121,7 +123,7 @@ class Model:
         self.queue = [e for e in self.queue
                       if not (e['r'] == rname and e['clock'] == clock)]
         self.queue.append({'clock': clock, 'key': key, 'seq': self.seq,
-                           'r': rname})
+                           'r': rname, 'by': self.current_step})
         self.seq += 1
 
     def play_on(self, rname, clock, quant, now):
@@ -362,15 +364,20 @@ class Model:
             # less than the window ago may, in real time, still be waiting
             # for its late thread
             acts = self.interacts(best['r'])
-            for t0, c0, acted0 in self.recent:
+            self.step_no += 1
+            for t0, c0, acted0, no0 in self.recent:
                 # (a task left behind by a beats jump is performed at once
-                # *because of* the step that jumped: no ambiguity there)
+                # *because of* the step that jumped, a waiter is woken by
+                # the step that signalled: no ambiguity between a step and
+                # the step that scheduled it)
                 if c0 != best['clock'] and phys - t0 <= self.WINDOW and (
-                        acts or acted0) and not t < phys:
+                        acts or acted0) and not t < phys \
+                        and best.get('by') != no0:
                     self.simultaneous = True
             self.recent = [x for x in self.recent
                            if phys - x[0] <= self.WINDOW]
-            self.recent.append((phys, best['clock'], acts))
+            self.recent.append((phys, best['clock'], acts, self.step_no))
+            self.current_step = self.step_no
             self.queue.remove(best)
             self.now = phys
             self.last_event = max(self.last_event, t)
